@@ -32,6 +32,7 @@ TermSet(name) ==
       [] name = "t22z" -> {Aff(<<<<0, 0>>, <<0, 1>>>>, <<0, 0>>), Aff(<<<<1, 0>>, <<0, 0>>>>, <<0, 1>>), Aff(<<<<0, 0>>, <<0, 0>>>>, <<2, -1>>)}   \* the last one is constant     \* a constant component that ties with the thresholds of p2a
       [] name = "t33s" -> {Aff(<<<<0, 1, 0>>, <<1, 0, 1>>, <<0, 0, 2>>>>, <<1, 0, -1>>)}
       [] name = "t23s" -> {Aff(<<<<1, 0, 1>>, <<0, 2, -1>>>>, <<0, 1>>), Aff(<<<<0, 1, 0>>, <<1, 0, 0>>>>, <<2, 0>>)}     \* R^3 -> R^2
+      [] name = "t22x" -> {Aff(<<<<1, 0>>, <<0, 1>>>>, <<0, 0>>), Aff(<<<<0, 1>>, <<1, 0>>>>, <<0, 0>>), Aff(<<<<0, 0>>, <<0, 0>>>>, <<1, 0>>), Aff(<<<<0, 0>>, <<0, 0>>>>, <<0, 1>>)}   \* pairs whose coefficient differences cancel in sum
       [] name = "t22s" -> {Aff(<<<<0, 1>>, <<1, 0>>>>, <<1, 0>>)}
       [] name = "tp2one" -> {Aff(<<<<1, 1>>>>, <<1>>), Aff(<<<<0, 1>>>>, <<0>>)}     \* the first one coincides with the predicate of p2one
       [] name = "tp2s" -> PredSet("p2s") \cup {Aff(<<<<0, 1>>>>, <<0>>)}          \* terminals R^2 -> R^1 that coincide with predicates of p2s
